@@ -5,7 +5,7 @@ S=$1; shift; PROPS=${@:-$S}
 cd /verif
 if [ -n "$(git -C /repo status --porcelain)" ]; then echo "repo dirty - abort"; exit 9; fi
 PATCH=/verif/seeded/$S/patch.diff; [ -f /verif/seeded/$S/patch_on_fixed_tree.diff ] && PATCH=/verif/seeded/$S/patch_on_fixed_tree.diff
-git -C /repo apply --3way $PATCH 2>/tmp/apply.$$.err || git -C /repo apply $PATCH 2>>/tmp/apply.$$.err || { echo "APPLY FAILED $S"; cat /tmp/apply.$$.err; git -C /repo checkout -q -- . ; git -C /repo reset -q; exit 8; }
+git -C /repo apply --3way $PATCH 2>/tmp/apply.$$.err || git -C /repo apply $PATCH 2>>/tmp/apply.$$.err || { echo "APPLY FAILED $S"; cat /tmp/apply.$$.err; git -C /repo reset -q --hard HEAD; exit 8; }
 for P in $PROPS; do
   bin/check $P > out/seedrun_${S}_$P.log 2>&1; rc=$?
   echo "seed=$S check=$P rc=$rc $(grep -c '^VIOLATION' out/seedrun_${S}_$P.log) violation(s): $(grep '^obligation failed' out/seedrun_${S}_$P.log | head -3 | tr '\n' ' ')"
